@@ -451,6 +451,7 @@ class Compiler:
                 status=b'ROLLBACK',
                 sql=sql,
                 tx_rollback=True,
+                capabilities=enums.Capability.TRANSACTION,
                 cacheable=False)
 
         elif isinstance(stmt, qlast.RollbackToSavepoint):
@@ -460,6 +461,7 @@ class Compiler:
                 sql=sql,
                 tx_savepoint_rollback=True,
                 sp_name=stmt.name,
+                capabilities=enums.Capability.TRANSACTION,
                 cacheable=False)
 
         if unit is not None:
